@@ -132,7 +132,8 @@ def render(text: str, silent: bool = False) -> str:
                 pattern = params[1:]
                 skip: bool
                 try:
-                    skip = re.match(f'^{pattern}$', value) is None
+                    # Full-string match (`$` would also match before a trailing line break).
+                    skip = re.match(f'^{pattern}\\Z', value) is None
                 except:
                     if not silent:
                         options.errorCallback(f'illegal macro regular expression: {pattern}: {text}')
